@@ -268,7 +268,12 @@ class Parser:
         regex_n = r"((?!\'[\w]*[\\']*[\w]*)\\n(?![\w]*[\\']*[\w]*\'))"
         data = data.replace("\\t", "")
         lines = re.split(regex_n, data)
-        lines = [line for line in lines if line != "\\n"]
+        # CRLF line ends: the carriage return is not part of the line
+        lines = [
+            line[:-2] if line.endswith("\\r") else line
+            for line in lines
+            if line != "\\n"
+        ]
 
         self.set_line: Optional[str] = None
 
